@@ -149,7 +149,7 @@ def run_history(role, hist, max_pdu=65536):
     case = {'role': role, 'history': hist, 'max_pdu': max_pdu}
     pred, model = H.predict(role, hist)
     sim, obs, pre = H.observe(role, hist, max_pdu=max_pdu, **reception(max_pdu))
-    H.compare(PROP, role, hist, pred, sim, obs, case)
+    H.compare_racing(PROP, role, hist, pred, sim, obs, case)
     return pred, model
 
 
@@ -167,7 +167,7 @@ def dfs(ctx, role, depth, prefix, model_factory, seen_cells, eager_variants=Fals
     if prefix:
         try:
             sim, obs, pre = H.observe(role, prefix, max_pdu=max_pdu, **reception(max_pdu))
-            H.compare(PROP, role, prefix, pred, sim, obs, {'role': role, 'history': prefix, 'max_pdu': max_pdu})
+            H.compare_racing(PROP, role, prefix, pred, sim, obs, {'role': role, 'history': prefix, 'max_pdu': max_pdu})
         except Violation as v:
             ctx.fail(v.key, v.what, v.case)
             ctx.case((role, prefix), True, labels=['dfs', 'violating'])
@@ -317,7 +317,7 @@ def run_walks(ctx, n, cells_out=None):
                  ['reached-Sta%d' % s for s in states],
                  sample={'role': role, 'history': [brief_action(a) for a in hist]})
         sim, obs, pre = H.observe(role, hist, max_pdu=max_pdu, **reception(max_pdu))
-        H.compare(PROP, role, hist, pred, sim, obs, {'role': role, 'history': hist, 'max_pdu': max_pdu})
+        H.compare_racing(PROP, role, hist, pred, sim, obs, {'role': role, 'history': hist, 'max_pdu': max_pdu})
     hyp_search(ctx, walk(), fn, n, name='C05-walk')
 
 
